@@ -6,10 +6,10 @@ theorem rule_sem (s : IPSets) (hs : s.wf) (hipp : s.ipportOK) (r : Rule) (inboun
     (hsup : r.supportedIn inbound) (n : Nat) (hn : 0 < n) (pid : String) (p : Pkt) :
     (∀ h ∈ hr s pid r inbound n, h.action = ruleAction r ∧ h.inbound = inbound) ∧
     (hr s pid r inbound n).any (·.matches p) = r.matches s p := by
-  rcases hsup.ipport with h | ⟨hin, ⟨id, hid⟩, h0, h1, h2, h3, h4, h5, h6⟩
+  rcases hsup.ipport with h | ⟨hin, ⟨id, hid⟩, h1, h2, h4, h5, h6⟩
   · exact rule_sem_general s hs r inbound hsup.base h n hn pid p
   · subst hin
-    exact rule_sem_ipport s hipp r hsup.base id hid h0 h1 h2 h3 h4 h5 h6 n pid p
+    exact rule_sem_ipport s hipp r hsup.base id hid h1 h2 h4 h5 h6 n hn pid p
 
 theorem firstAction_hr (s : IPSets) (hs : s.wf) (hipp : s.ipportOK) (r : Rule) (inbound : Bool)
     (hsup : r.supportedIn inbound) (n : Nat) (hn : 0 < n) (pid : String) (p : Pkt) :
